@@ -169,7 +169,7 @@ func ruleMatchNumberBuiltin(c *Ctx, rule string) {
 		}
 		return false
 	}
-	n := 0
+	n, tables := 0, 0
 	for _, fn := range c.SrcFuncs("engine") {
 		src := map[ssa.Value]bool{}
 		instrsOf(fn, func(in ssa.Instruction) {
@@ -195,6 +195,11 @@ func ruleMatchNumberBuiltin(c *Ctx, rule string) {
 			case *ssa.MapUpdate:
 				if k, ok := x.Key.(*ssa.Const); ok && k.Value != nil && k.Value.ExactString() == `"matchNumber"` {
 					check(x.Pos(), x.Value, "environment entry")
+					if mt, ok := x.Map.Type().Underlying().(*types.Map); ok {
+						if nt, ok := mt.Elem().(*types.Named); ok && nt.Obj().Pkg() != nil && nt.Obj().Pkg().Name() == "engine" {
+							tables++
+						}
+					}
 				}
 			case *ssa.Call:
 				sc := x.Call.StaticCallee()
@@ -203,11 +208,14 @@ func ruleMatchNumberBuiltin(c *Ctx, rule string) {
 				}
 				if k, ok := x.Call.Args[1].(*ssa.Const); ok && k.Value != nil && k.Value.ExactString() == `"matchNumber"` {
 					check(x.Pos(), x.Call.Args[2], "call to "+sc.Name())
+					tables++
 				}
 			}
 		})
 	}
 	r.Floor(rule, "bindings of matchNumber", n, 2)
+	// the two tables process code and with-lists read: the replacer's variables and the environment of a transform
+	r.Floor(rule, "bindings of matchNumber in the tables that replacers and transforms read", tables, 2)
 }
 
 // ---------------------------------------------------------------------------------------------
